@@ -66,6 +66,7 @@ type c27Scenario struct {
 	inputs  []*c27Input
 	outputs []*bitcoin.TransactionOutput
 	chain   *c27Chain
+	ops     string // builder operations of the last build: i(nput) o(utput) C(ompute)
 }
 
 func c27GenKey(t *rapid.T, label string) *btcec.PrivateKey {
@@ -280,14 +281,21 @@ func (sc *c27Scenario) render() string {
 	for _, o := range sc.outputs {
 		outs = append(outs, fmt.Sprintf("%d/s%d", o.Value, len(o.PublicKeyScript)))
 	}
-	return fmt.Sprintf("key=%x in[%s] out[%s]", sc.priv.PubKey().SerializeCompressed()[:5], strings.Join(parts, " "), strings.Join(outs, " "))
+	return fmt.Sprintf("key=%x in[%s] out[%s] ops=%s", sc.priv.PubKey().SerializeCompressed()[:5], strings.Join(parts, " "), strings.Join(outs, " "), sc.ops)
 }
 
-// build assembles the unsigned transaction the way the wallet actions do and
-// returns the builder with its signature hashes.
+// build drives one builder through a drawn sequence of operations - inputs
+// and outputs are added in their final order but interleaved, and
+// ComputeSignatureHashes is called at drawn points, possibly several times
+// (preview, fee adjustment, change output added afterwards) - and returns the
+// builder with the signature hashes of the LAST ComputeSignatureHashes, which
+// is always the last operation.
 func (sc *c27Scenario) build(t *rapid.T) (*bitcoin.TransactionBuilder, []*big.Int) {
 	builder := bitcoin.NewTransactionBuilder(sc.chain)
-	for i, in := range sc.inputs {
+	nextIn, nextOut := 0, 0
+	var ops []byte
+	addInput := func() {
+		in := sc.inputs[nextIn]
 		var err error
 		if in.redeemScript == nil {
 			err = builder.AddPublicKeyHashInput(in.utxo)
@@ -295,19 +303,85 @@ func (sc *c27Scenario) build(t *rapid.T) (*bitcoin.TransactionBuilder, []*big.In
 			err = builder.AddScriptHashInput(in.utxo, in.redeemScript)
 		}
 		if err != nil {
-			t.Fatalf("adding %s input %d failed: %v", in.kind, i, err)
+			t.Fatalf("adding %s input %d failed: %v", in.kind, nextIn, err)
+		}
+		nextIn++
+		ops = append(ops, 'i')
+	}
+	addOutput := func() {
+		builder.AddOutput(sc.outputs[nextOut])
+		nextOut++
+		ops = append(ops, 'o')
+	}
+	var sigHashes []*big.Int
+	compute := func() {
+		var err error
+		sigHashes, err = builder.ComputeSignatureHashes()
+		if err != nil {
+			t.Fatalf("ComputeSignatureHashes after %q: %v", ops, err)
+		}
+		if len(sigHashes) != nextIn {
+			t.Fatalf("%d signature hashes for %d inputs (after %q)", len(sigHashes), nextIn, ops)
+		}
+		ops = append(ops, 'C')
+	}
+	switch rapid.SampledFrom([]string{"recompute-after-output", "classic", "recompute-after-input", "free", "recompute-after-output"}).Draw(t, "schedule") {
+	case "classic":
+		// all inputs, all outputs, one computation
+	case "recompute-after-output":
+		// all inputs, some outputs, compute, the remaining outputs (>= 1)
+		for nextIn < len(sc.inputs) {
+			addInput()
+		}
+		before := rapid.IntRange(0, len(sc.outputs)-1).Draw(t, "outputsBeforeCompute")
+		for nextOut < before {
+			addOutput()
+		}
+		compute()
+	case "recompute-after-input":
+		// some inputs (>= 1) and possibly outputs, compute, the remaining inputs
+		first := rapid.IntRange(1, len(sc.inputs)).Draw(t, "inputsBeforeCompute")
+		for nextIn < first {
+			addInput()
+		}
+		before := rapid.IntRange(0, len(sc.outputs)).Draw(t, "outputsBeforeCompute")
+		for nextOut < before {
+			addOutput()
+		}
+		compute()
+	default:
+		// any interleaving with up to three intermediate computations
+		computes := 0
+		for nextIn < len(sc.inputs) || nextOut < len(sc.outputs) {
+			var choices []string
+			if nextIn < len(sc.inputs) {
+				choices = append(choices, "input", "input")
+			}
+			if nextOut < len(sc.outputs) {
+				choices = append(choices, "output", "output")
+			}
+			if computes < 3 && len(ops) > 0 && ops[len(ops)-1] != 'C' {
+				choices = append(choices, "compute")
+			}
+			switch rapid.SampledFrom(choices).Draw(t, "op") {
+			case "input":
+				addInput()
+			case "output":
+				addOutput()
+			default:
+				compute()
+				computes++
+			}
 		}
 	}
-	for _, o := range sc.outputs {
-		builder.AddOutput(o)
+	for nextIn < len(sc.inputs) {
+		addInput()
 	}
-	sigHashes, err := builder.ComputeSignatureHashes()
-	if err != nil {
-		t.Fatalf("ComputeSignatureHashes: %v", err)
+	for nextOut < len(sc.outputs) {
+		addOutput()
 	}
-	if len(sigHashes) != len(sc.inputs) {
-		t.Fatalf("%d signature hashes for %d inputs", len(sigHashes), len(sc.inputs))
-	}
+	compute()
+	sc.ops = string(ops)
 	return builder, sigHashes
 }
 
@@ -373,6 +447,27 @@ func c27Labels(sc *c27Scenario, sigHashes []*big.Int) (mixed bool, labels []stri
 		labels = append(labels, "funding:shared-same-kind")
 	default:
 		labels = append(labels, "funding:separate")
+	}
+	// shape of the builder operation sequence
+	first := strings.IndexByte(sc.ops, 'C')
+	switch {
+	case first == len(sc.ops)-1:
+		labels = append(labels, "ops:single-compute")
+	default:
+		rest := sc.ops[first+1:]
+		if strings.Contains(rest, "o") {
+			if w > 0 {
+				labels = append(labels, "ops:output-after-compute/witness-input")
+			} else {
+				labels = append(labels, "ops:output-after-compute/legacy-only")
+			}
+		}
+		if strings.Contains(rest, "i") {
+			labels = append(labels, "ops:input-after-compute")
+		}
+		if strings.Count(sc.ops, "C") > 2 {
+			labels = append(labels, "ops:three-or-more-computes")
+		}
 	}
 	labels = append(labels, fmt.Sprintf("mixed-witness-legacy:%v", mixed), fmt.Sprintf("inputs:%d", len(sc.inputs)))
 	for _, h := range sigHashes {
